@@ -15,8 +15,9 @@
      svc_hist n v0 a        v0 followed by the statuses set for n in a, up to the first [Clear n]
      reports w t            the statuses stream w reported along trace t
    All theorems quantify over ALL histories (lists of operations of any length, any names, any
-   number of streams); there is no bound. *)
-From Coq Require Import List NArith Bool.
+   number of streams); there is no bound.  The second half of the file is about CONCURRENT
+   executions (any number of tasks, any schedule); its vocabulary is introduced there. *)
+From Coq Require Import List NArith Bool Permutation.
 From Verif Require Import Lib.Obs Model.Health Proofs.Health.
 Import ListNotations.
 Open Scope N_scope.
@@ -107,54 +108,128 @@ Theorem c18_end_is_final : forall h1 n w v0 h2 c,
          (trace (run init ((h1 ++ Watch n :: h2) ++ [Next w])) c).
 Proof. exact end_is_final. Qed.
 
-(* ---- concurrency: what is theorem and what is sampled ----
-   THEOREM: nothing about concurrent executions.  All theorems above are about sequential
-   histories; the only two statements below that touch the concurrent tier
-   (c18_obs_linearizable_sound, c18_lin_obs_is_sequential) are about the COMPARATOR the harness
-   uses: they say that a case passes only if the observation equals the model's outcome on one of
-   the candidate sequential histories.  That "every concurrent execution of the real service is
-   one of the sequential histories" (linearizability) is NOT proved; it is an assumption about
-   the code and about tokio, argued as follows and sampled by the harness on every run:
-   (L1) every operation acquires the service's tokio RwLock exactly ONCE - write() in
-        set_service_status (hence set_serving / set_not_serving) and clear_service_status,
-        read() in service_health (check) and in watch - and does all of its work on the map
-        under that one guard: the lookup, the tx.send or the insert of a fresh channel, the
-        remove (which drops the Sender, i.e. closes the channel), the borrow of the value, the
-        clone of the Receiver.  There is no .await between acquiring the guard and dropping it.
-        So each operation takes effect atomically at its acquisition, writers exclude everybody,
-        and the order of acquisitions is a sequential history.
-   (L2) a poll of a response stream touches only its own watch channel.  Sender::send stores the
-        value and bumps the version under the channel's internal lock, borrow_and_update reads
-        value and version under that lock, changed() loads version and closed bit from one
-        atomic word: a poll is atomic with respect to send and to the drop of the Sender, both of
-        which happen inside (L1)'s critical sections.
-   (L3) a task awaiting a stream is woken by send and by the drop of the Sender (tokio Notify).
-   SAMPLED (h_health, quick and thorough tier):
-   * interleave.*: (L1).  Operation A (set_service_status, set_not_serving::<S>, clear, watch,
-     check; on a fresh / existing / watched / just-cleared name) and a sequence B of 1-4
-     operations on the same name run in two tasks of a single-threaded runtime; a grid of
-     cooperative-budget offsets (k, j) switches A out at each of its lock acquisitions in turn
-     and B after each of its first budget units, so A resumes between the operations of B.
-     Verdict: the outcome equals the model's outcome for a sequential history with A atomic at a
-     position real time allows (obs_linearizable), and the plain-map oracle agrees.  Only task
-     switches at tokio yield points are explored, and only two tasks.
-   * wake: (L3).  One or two tasks AWAIT their streams while another task sets (also an equal
-     value, also through the typed API) / clears / touches another name; the awaiting tasks must
-     be polled again within a bounded number of scheduler turns and see what the sequential
-     history says (or stay parked when nothing of their service changed).
-   * stress: (L1)-(L3) under real preemption: multi-thread runtime, 4 writers x 400 sets, 12
-     awaited streams, 2 checkers; judges only safety (never a status that was not set, no end
-     without clear) and final convergence.  2 rounds quick, 8 thorough. *)
-Theorem c18_obs_linearizable_sound : forall cands t,
-  obs_linearizable cands t = Nn 1 -> exists c, In c cands /\ tr_eqb (lin_obs c) t = true.
-Proof. exact obs_linearizable_sound. Qed.
-Theorem c18_lin_obs_is_sequential : forall pre a post,
-  exists xa tpost,
-    trace init (pre ++ a :: post) = trace init pre ++ (a, xa) :: tpost /\
-    lin_obs (pre, a, post) =
-      Nd (map (fun x => lin_out_tr (snd x)) (trace init pre)
-          ++ map (fun x => lin_out_tr (snd x)) tpost ++ [lin_out_tr xa]).
-Proof. exact lin_obs_is_sequential. Qed.
+(* ---- concurrent executions ----
+   Vocabulary (Model/Health.v "concurrent executions", Proofs/Health.v):
+     cstep / cexec   a machine in which every call of the service is split into the steps between
+                     which another task can run - invocation, acquisition of the tokio RwLock
+                     (write() in set_service_status / set_serving / set_not_serving /
+                     clear_service_status, read() in check / watch; a write guard excludes every
+                     other guard, read guards are shared), the map lookup under the guard, the
+                     effect under the guard (tx.send / insert / remove / borrow / rx.clone, after
+                     which the guard is dropped), return; a poll of a response stream takes no
+                     lock and is one step.  Any number of tasks, any schedule (list event).
+     g_hist c        the calls that have returned, each with the time of its invocation, the time
+                     of its return, and what it returned: all an observer sees of a run.
+                     [Next k] in such a record = a poll of the stream opened by the Watch call
+                     invoked at time k.
+     concretise      the sequential history (list op, with the model's stream numbers) that an
+                     order of calls stands for
+     seq_exact order every call returned exactly what [step] returns on that sequential history
+     lin_points order eff   each call takes effect at a moment between its invocation and its
+                     return, and [order] is the order of those moments
+     lin_check       the search the harness evaluates (through obs_conc) on every concurrent
+                     history it records of the REAL service
+   THEOREM (c18_concurrent_linearizable, c18_quiescent_history_linearizable): every execution of
+   the machine is linearizable - its calls can be ordered by effect moments that lie inside the
+   calls' real-time intervals so that every call returns what the sequential model returns, and
+   the shared state is the sequential model's state; hence every theorem above holds of that
+   order.  What is NOT proved: that tonic-health refines the machine.  That rests on reading
+   server.rs (one acquisition per call, nothing awaited under a guard, the guard of watch lives to
+   the end of its match) and on tokio (RwLock exclusion; Sender::send, borrow_and_update and
+   changed() atomic on a channel; a poll of a response stream is ONE atomic step here, whereas
+   under real parallelism a send may fall between the two source polls of one encoder poll - the
+   second item is then buffered in the client's Streaming and handed out by the next poll), and
+   it is SAMPLED on every run: the interleave.* kinds record the real service's concurrent
+   histories (2 and 3 tasks, task switches at every cooperative yield point) and
+   c18_machine_histories_pass_check says a refinement of the machine can never fail the check
+   they evaluate; wake samples the wake-ups (not modelled), stress real preemption and lock
+   contention (safety, read-your-writes, convergence, end of cleared streams). *)
+Theorem c18_concurrent_linearizable : forall e c, cexec cinit e c ->
+  exists order eff,
+    (forall h, In h (g_hist c) -> In h order) /\
+    (forall p, In p order -> In p (g_hist c) \/ pending_done c p) /\
+    NoDup (map co_inv order) /\
+    seq_exact order /\
+    lin_points order eff /\
+    g_st c = run init (concretise init [] order).
+Proof. exact concurrent_linearizable. Qed.
+
+Theorem c18_quiescent_history_linearizable : forall e c,
+  cexec cinit e c -> (forall t, g_th c t = PIdle) ->
+  exists order eff,
+    (Permutation order (g_hist c) /\ seq_exact order /\ lin_points order eff) /\
+    g_st c = run init (concretise init [] order).
+Proof. exact quiescent_linearizable. Qed.
+
+(* effect moments inside the intervals give the usual real-time condition *)
+Theorem c18_lin_points_respect_real_time : forall order eff, lin_points order eff -> rt_ok order.
+Proof. exact lin_points_rt. Qed.
+
+(* the tie: what the harness evaluates on the real service's concurrent histories *)
+Theorem c18_machine_histories_pass_check : forall e c,
+  cexec cinit e c -> (forall t, g_th c t = PIdle) -> lin_check (g_hist c) = true.
+Proof. exact lin_check_complete. Qed.
+Theorem c18_check_pass_means_linearizable : forall h, lin_check h = true ->
+  exists order, Permutation order h /\ seq_abs order /\ rt_ok order.
+Proof. exact lin_check_sound. Qed.
+
+(* the [expect] in set_service_status fires in no concurrent execution either *)
+Theorem c18_concurrent_never_panics : forall e c h, cexec cinit e c -> In h (g_hist c) ->
+  co_out h <> OPanic /\ co_out h <> OFuel.
+Proof. exact concurrent_never_panics. Qed.
+
+(* the safety clauses of the property for EVERY concurrent execution (what the stress tier and the
+   schedule-independent facts of the interleaving tier judge): nothing is reported that was not
+   set for that service, and a stream ends only after a clear.  [from_history c p]: p is a call
+   that has returned or has taken effect. *)
+Theorem c18_concurrent_check_not_foreign : forall e c h n v, cexec cinit e c -> In h (g_hist c) ->
+  co_op h = Check n -> co_out h = OStatus v ->
+  (n = [] /\ v = Serving) \/
+  exists p k, (In p (g_hist c) \/ pending_done c p) /\ co_op p = SetBy n k /\ setter_status k = v /\
+              (co_inv p < co_ret h)%nat.
+Proof. exact concurrent_check_not_foreign. Qed.
+Theorem c18_concurrent_stream_not_foreign : forall e c h k v, cexec cinit e c -> In h (g_hist c) ->
+  co_op h = Next k -> co_out h = OItem v ->
+  exists wt n, from_history c wt /\ co_inv wt = k /\ co_op wt = Watch n /\
+    ((n = [] /\ v = Serving) \/
+     exists p s, from_history c p /\ co_op p = SetBy n s /\ setter_status s = v /\ (co_inv p < co_ret h)%nat).
+Proof. exact concurrent_stream_not_foreign. Qed.
+Theorem c18_concurrent_end_only_after_clear : forall e c h k, cexec cinit e c -> In h (g_hist c) ->
+  co_op h = Next k -> co_out h = OEnd ->
+  exists wt n p, from_history c wt /\ co_inv wt = k /\ co_op wt = Watch n /\
+    from_history c p /\ co_op p = Clear n /\ (co_inv p < co_ret h)%nat.
+Proof. exact concurrent_end_only_after_clear. Qed.
+
+(* no deadlock: from whatever point an execution has reached every call can run to its return
+   (whoever holds a guard finishes without help, then the waiting calls are served); so the
+   quiescence hypothesis above loses nothing: every execution is the beginning of one whose
+   record passes the check *)
+Theorem c18_can_complete : forall e c, cexec cinit e c ->
+  exists e' c', cexec c e' c' /\ (forall t, g_th c' t = PIdle).
+Proof. exact can_complete. Qed.
+Theorem c18_every_execution_extends_to_checked : forall e c, cexec cinit e c ->
+  exists e' c' more, cexec cinit (e ++ e') c' /\ g_hist c' = g_hist c ++ more /\ lin_check (g_hist c') = true.
+Proof. exact every_execution_extends_to_checked. Qed.
+
+Theorem c18_lock_exclusion : forall e c t1 t2, cexec cinit e c -> t1 <> t2 ->
+  holds (g_th c t1) = Some true -> holds (g_th c t2) = None.
+Proof. exact lock_exclusion. Qed.
+
+(* the machine has genuinely interleaved executions; the check is not vacuous *)
+Example c18_interleaved_execution :
+  exists c, cexec cinit example_schedule c /\ (forall t, g_th c t = PIdle) /\
+            g_hist c = [mkCop 0 8 (SetS [97] NotServing) OUnit; mkCop 1 9 (Check [97]) ONotFound].
+Proof. exact example_execution. Qed.
+Example c18_check_accepts_overlap :
+  lin_check [mkCop 0 8 (SetS [97] NotServing) OUnit; mkCop 1 9 (Check [97]) ONotFound] = true.
+Proof. reflexivity. Qed.
+Example c18_check_rejects_stale_read :   (* the same answer once the set had returned *)
+  lin_check [mkCop 0 8 (SetS [97] NotServing) OUnit; mkCop 9 10 (Check [97]) ONotFound] = false.
+Proof. reflexivity. Qed.
+Example c18_check_rejects_lost_update :
+  lin_check [mkCop 0 3 (SetS [97] NotServing) OUnit; mkCop 1 2 (SetS [97] Serving) OUnit;
+             mkCop 4 5 (Check [97]) (OStatus Unknown)] = false.
+Proof. reflexivity. Qed.
 
 (* ---- non-vacuity: the hypotheses are satisfiable on non-trivial histories ---- *)
 (* a stream on "a" opened while "a" is NOT_SERVING, after the default stream on "" *)
@@ -209,3 +284,6 @@ Print Assumptions c18_watch_reports_are_subsequence.
 Print Assumptions c18_watch_converges.
 Print Assumptions c18_clear_ends_stream_after_unseen.
 Print Assumptions c18_end_is_final.
+Print Assumptions c18_concurrent_linearizable.
+Print Assumptions c18_machine_histories_pass_check.
+Print Assumptions c18_concurrent_stream_not_foreign.
